@@ -18,7 +18,7 @@ pub fn check() -> Check {
 }
 
 fn plan(tier: Tier) -> Vec<Workload> {
-    vec![Workload::new("histories", tier.pick(20_000, 400_000))]
+    vec![Workload::new("histories", tier.pick(100_000, 2_000_000))]
 }
 
 fn runtime_view(s: &Snapshot) -> String {
